@@ -44,6 +44,8 @@ package components
 //@ ghost func globCount(ps seq[string], k int, epoch int) int
 //@ axiom globCount.zero: forall ps seq[string], e int :: globCount(ps, 0, e) == 0
 //@ axiom globCount.step: forall ps seq[string], k int, e int :: k >= 0 ==> globCount(ps, k + 1, e) == globCount(ps, k, e) + len(globOf(ps[k], e))
+// (follows from zero/step by induction on b, lengths being non-negative; stated as an axiom because the solvers do no induction)
+//@ axiom globCount.monotone: forall ps seq[string], a int, b int, e int :: 0 <= a && a <= b ==> globCount(ps, a, e) <= globCount(ps, b, e)
 //@ extern path/filepath.Glob(pattern) (matches, err)
 //@   ensures def: err == nil ==> matches == globOf(pattern, fsEpoch)
 
